@@ -360,6 +360,7 @@ RECOGNIZERS = {"digits": rec_digits, "word": rec_word, "upper": rec_upper}
 # scenario families
 
 OPS = ["+", "-", "*", "/", "^", "%", "<", "&"]
+OPS_U = ["\u20ac", "\u00d7", "\u2192", "\u2218"]  # euro, times, arrow, ring
 NUMS = ["1", "2", "3", "42", "7", "10"]
 IDS = ["a", "b", "x", "y1", "foo", "bar_2", "q"]
 
@@ -401,7 +402,9 @@ def fam_expr(rng):
     """Operator expressions; with priorities (deterministic LR table) or
     without (ambiguous: LR needs prefer_shifts, GLR yields forests)."""
     n = rng.randint(2, 4)
-    ops = rng.sample(OPS, n)
+    # a quarter of the expression scenarios use non-ASCII operator texts (these
+    # become symbol names, hence end up in saved tables and error messages)
+    ops = rng.sample(OPS_U + OPS[:2] if rng.random() < 0.25 else OPS, n)
     with_prio = rng.random() < 0.55
     layout = "comments" if rng.random() < 0.25 else "ws"
     parens = rng.random() < 0.8
@@ -414,7 +417,7 @@ def fam_expr(rng):
     base = _expr_model(ops, prios, assocs, parens, layout=layout)
     versions = [base]
     # v1: another operator
-    extra = rng.choice([o for o in OPS if o not in ops])
+    extra = rng.choice([o for o in OPS + OPS_U if o not in ops])
     p2, a2 = dict(prios), dict(assocs)
     if with_prio:
         p2[extra] = rng.randint(1, 3)
@@ -502,9 +505,26 @@ def fam_stmt(rng):
                 named=named)
 
 
-def fam_nullable(rng):
-    """Nullable chains; prefer_shifts_over_empty matters."""
+def fam_nullable(rng, unicode_names=None):
+    """Nullable chains; prefer_shifts_over_empty matters.  A third of the
+    scenarios use non-ASCII terminal texts (symbol names in saved tables)."""
+    if unicode_names is None:
+        unicode_names = rng.random() < 0.33
+    U = {"a": "\u03b1", "b": "\u03b2", "y": "\u044f"} if unicode_names else {}
+
     def mk(variant):
+        m = mk0(variant)
+        if U:
+            for r in m.rules:
+                for a in r.alts:
+                    for it in a.items:
+                        it.sym = U.get(it.sym, it.sym)
+            terms = [Term(U.get(t.name, t.name), "str", U.get(t.name, t.name),
+                          [U.get(t.name, t.name)]) for t in m.terms.values()]
+            m = GModel(m.rules, terms)
+        return m
+
+    def mk0(variant):
         rules = [
             Rule("S", [Alt(["A", "B", "C", "x"]), Alt(["A", "y"])]),
             Rule("A", [Alt(["a"]), Alt([])]),
